@@ -885,7 +885,11 @@ func (s *Server) SetReplicationConfig(cfg config.ReplicationConfig) error {
 	if err := s.persistOptions.Persist(s.storage); err != nil {
 		s.persistOptions.SetReplicationConfig(old)
 		if rule != nil {
+			// Roll back with a fresh object: the one handed to SetRule above is the served rule now,
+			// editing it in place would make this second SetRule a no-op that persists nothing.
+			rule = rule.Clone()
 			rule.Count = int(old.MaxReplicas)
+			rule.LocationLabels = old.LocationLabels
 			if e := s.GetRaftCluster().GetRuleManager().SetRule(rule); e != nil {
 				log.Error("failed to roll back count of rule when update replication config", errs.ZapError(e))
 			}
